@@ -16,7 +16,7 @@ SPEC = "ControlSession"
 
 def run(tier, seed, replay=None):
     pid = "C08"
-    wd = vlib.workdir(pid)
+    wd = vctl_common.run_dir(pid)
     v = vlib.Verdict(pid, tier, seed)
     quick = tier == "quick"
     rl = vlib.tlc_must_pass(SPEC, "ControlSession_lines.cfg", wd, workers=1, timeout=600)
@@ -36,9 +36,9 @@ def run(tier, seed, replay=None):
     vctl = vlib.build_harness("vctl")
     args = ["c08", "-lines", lines, "-sessions", sessions, "-receptor", vctl_common.receptor_copy(wd), "-work", wd, "-seed", str(seed)]
     if quick:
-        args += ["-instances", "2", "-pairmode", "split", "-budget", "80s"]
+        args += ["-instances", "2", "-pairmode", "split", "-budget", "60s"]
     else:
-        args += ["-instances", "8", "-pairmode", "both", "-allwedges", "-budget", "1100s"]
+        args += ["-instances", "6", "-pairmode", "both", "-allwedges", "-budget", "800s"]
     if replay:
         args += ["-replay", replay]
     res = vlib.harness_json(vctl, args, wd, timeout=3000)
